@@ -40,7 +40,32 @@ def _g_sqrt(c, k, mu, sigma_squared, team, rank):
     return math.sqrt(sigma_squared) / c
 
 
+def _g_tiny(c, k, mu, sigma_squared, team, rank):
+    return 1e-12
+
+
+def _g_huge(c, k, mu, sigma_squared, team, rank):
+    return 1e12
+
+
+def _g_int(c, k, mu, sigma_squared, team, rank):
+    return 1
+
+
+def _g_teamsize(c, k, mu, sigma_squared, team, rank):
+    return 1.0 / len(team)
+
+
+def _g_var(c, k, mu, sigma_squared, team, rank):
+    return sigma_squared / (c * c)
+
+
 GAMMAS = {
+    "tiny": _g_tiny,
+    "huge": _g_huge,
+    "int": _g_int,
+    "teamsize": _g_teamsize,
+    "var": _g_var,
     "zero": _g_zero,
     "one": _g_one,
     "big": _g_big,
